@@ -1076,6 +1076,171 @@ example :
     h.cfgOf 0 = some ⟨[.repair, .strict]⟩ ∧ h.cfgOf 1 = some ⟨[.repair, .strict]⟩ ∧
     h.cfgOf 2 = some ⟨defaultStrategies⟩ := by intro h; exact ⟨rfl, rfl, rfl⟩
 
+/-! ## The library's own wrappers: a Chaperone handed to `ChaperoneLoop` stays the caller's validator
+
+`healH` is `ChaperoneLoop.heal` over an instance WITH callbacks (the co-chaperone registered for the loop's schema
+preprocesses every generated text, `on_misfold` sees every misfolded attempt); `HInst` is one Chaperone as a fold sees
+it (strategy list in force, callbacks, counters). -/
+
+/-- Over an instance without a co-chaperone for the schema and without a (truthy) `on_misfold` the healing loop with
+    callbacks is the healing loop of the section above: same result, same counters, same library calls, no callback
+    invoked — every `c11_heal_…` theorem above is a theorem about it. -/
+theorem c11_heal_without_callbacks_nothing_changes (env : Env J S C) (cfg : Cfg) (st : Stats) (decay : Rat)
+    (maxRetries : Nat) (gen : Nat → Text) :
+    ∃ st' h, (heal env cfg st decay maxRetries gen).res = .ok (st', h) ∧
+      healH env Hooks.absent cfg st decay maxRetries gen =
+        ⟨st', [], (heal env cfg st decay maxRetries gen).trace, .ok h⟩ := by
+  obtain ⟨st', h, hres, heq⟩ := healHFrom_absent env cfg decay gen (maxRetries + 1) 0 st [] [] []
+  exact ⟨st', h, hres, by simpa [healH, heal] using heq⟩
+
+/-- "No raw text makes folding raise", through the healing loop with callbacks: an exception leaves `heal` only when it
+    left `fold_enhanced` at some attempt `j ≤ max_retries`, i.e. when a user callback raised it — the co-chaperone on
+    the text generated at that attempt, or `on_misfold` on the report of that misfolded attempt; with callbacks that
+    return, `heal` returns a `HealingResult` for every generator, decay and library behaviour. -/
+theorem c11_only_a_user_callback_makes_healing_raise (env : Env J S C) (hk : Hooks S C) (cfg : Cfg) (st : Stats)
+    (decay : Rat) (maxRetries : Nat) (gen : Nat → Text) :
+    (∀ e, (healH env hk cfg st decay maxRetries gen).res = .raise e →
+      ∃ j, j ≤ maxRetries ∧
+        ((∃ f, hk.pre = some f ∧ f (gen j) = .raise e) ∨ (∃ g rep, hk.onMisfold = some g ∧ g rep = .raise e))) ∧
+    ((∀ f t, hk.pre = some f → ∃ t', f t = .ok t') → (∀ g rep, hk.onMisfold = some g → g rep = .ok ()) →
+      ∃ h, (healH env hk cfg st decay maxRetries gen).res = .ok h) := by
+  have hspec := healHFrom_spec env hk cfg decay gen (maxRetries + 1) 0 st [] [] []
+  constructor
+  · intro e he
+    unfold healH at he
+    rcases hspec with ⟨h, h0, _⟩ | ⟨h, j, stj, r, h0, _⟩ | ⟨e', j, stj, h0, _, hj, hfold⟩
+    · rw [h0] at he; cases he
+    · rw [h0] at he; cases he
+    · rw [h0] at he; cases he
+      refine ⟨j, by omega, ?_⟩
+      rcases (c11_only_a_user_callback_makes_folding_raise env hk cfg stj (gen j) []).2.1 e hfold with
+        ⟨f, hf, hr⟩ | ⟨g, rep, hg, hr, _⟩
+      · exact Or.inl ⟨f, hf, hr⟩
+      · exact Or.inr ⟨g, rep, hg, hr⟩
+  · intro hpre hmf
+    unfold healH
+    rcases hspec with ⟨h, h0, _⟩ | ⟨h, j, stj, r, h0, _⟩ | ⟨e', j, stj, h0, _, hj, hfold⟩
+    · exact ⟨h, h0⟩
+    · exact ⟨h, h0⟩
+    · obtain ⟨_, x, hx⟩ := (c11_only_a_user_callback_makes_folding_raise env hk cfg stj (gen j) []).2.2
+        (fun f hf => hpre f (gen j) hf) hmf
+      rw [hfold] at hx; cases hx
+
+example : (healH toyEnv toyHooksRaising (Cfg.new []) Stats.zero (1 / 10) 2 (fun _ => rawBad)).res = .raise (.other 6) ∧
+    (healH toyEnv toyHooksRaising (Cfg.new []) Stats.zero (1 / 10) 2 (fun _ => rawBad)).stats.total = 1 ∧
+    ∃ h, (healH toyEnv toyHooks (Cfg.new []) Stats.zero (1 / 10) 2 (fun k => if k < 1 then rawBad else rawProse)).res = .ok h ∧
+      h.outcome = .healed ∧
+      (healH toyEnv toyHooks (Cfg.new []) Stats.zero (1 / 10) 2 (fun k => if k < 1 then rawBad else rawProse)).hooks.length = 3 :=
+  ⟨rfl, rfl, _, rfl, rfl, rfl⟩
+
+/-- What the healing loop hands on over an instance with callbacks: when it does not give up, the first valid
+    `fold_enhanced` report, of attempt `j ≤ max_retries`: valid, no error trace, echoing the text the GENERATOR produced
+    at that attempt, its structure the result of a successful `model_validate d` with `d` derived by one of the
+    instance's strategies from the text the strategies worked on (the generated text, or what the caller's own
+    co-chaperone made of it), only the confidence replaced by `min(confidence, ceiling of attempt j)`.  When it gives
+    up: nothing.  In both cases the confidence lies in [0, 1] and is 1 only for a fold that is valid through STRICT. -/
+theorem c11_heal_with_callbacks_hands_on_a_valid_fold (env : Env J S C) (hk : Hooks S C) (cfg : Cfg) (st : Stats)
+    (decay : Rat) (maxRetries : Nat) (gen : Nat → Text) (h : HealOut S C)
+    (hres : (healH env hk cfg st decay maxRetries gen).res = .ok h) :
+    0 ≤ h.finalConfidence ∧ h.finalConfidence ≤ 1 ∧
+    (∀ f, h.folded = some f → f.confidence = h.finalConfidence) ∧
+    (h.finalConfidence = 1 → ∃ f, h.folded = some f ∧ f.valid = true ∧ f.strategyUsed = some .strict) ∧
+    (h.outcome = .degraded → h.folded = none ∧ h.finalConfidence = 0 ∧ h.tagged = true ∧
+      h.attempts = failedAtts 0 (maxRetries + 1)) ∧
+    (h.outcome ≠ .degraded → ∃ j t f, j ≤ maxRetries ∧ hk.Feeds (gen j) t ∧ h.folded = some f ∧ h.tagged = false ∧
+      (h.outcome = .validFirstTry ↔ j = 0) ∧ h.attempts = failedAtts 0 j ++ [⟨j, true, healCeiling decay j⟩] ∧
+      f.valid = true ∧ f.err = none ∧ f.raw = gen j ∧
+      ∃ s ∈ effective cfg [], ∃ d v, f.struct = some v ∧ env.validate d = .ok v ∧ Derived env t s d ∧
+        f.strategyUsed = some s) := by
+  unfold healH at hres
+  rcases healHFrom_spec env hk cfg decay gen (maxRetries + 1) 0 st [] [] [] with
+    ⟨h', h0, hd, hf, hfc, htag, ha⟩ | ⟨h', j, stj, r, h0, _, hj, hfold, hrv, hf, hfc, htag, ho, ha⟩ | ⟨e, j, stj, h0, _⟩
+  · rw [h0] at hres; cases hres
+    rw [hfc, hf]
+    refine ⟨by grind, by grind, by simp, by grind, fun _ => ⟨rfl, rfl, htag, by simpa using ha⟩, fun hnd => absurd hd hnd⟩
+  · rw [h0] at hres; cases hres
+    -- the valid report of attempt j, through the fold on the text fed
+    rcases foldH_cases env hk cfg stj (gen j) [] with ⟨f, e, _, _, _, hXH⟩ | ⟨t, hfeeds, _, _⟩
+    · rw [hXH] at hfold; cases hfold
+    obtain ⟨stj', p, x, _, hx, _, _, _, _, _, hq2⟩ :=
+      c11_cochaperone_folds_the_preprocessed_text env hk cfg stj (gen j) t [] hfeeds
+    have hr := hq2 r hfold
+    obtain ⟨hc0, hc1, hone, _⟩ := c11_confidence_unit_and_one_only_strict env cfg stj stj' t [] x hx
+    obtain ⟨⟨s, hs, d, v, hstruct, hval, hder, hsu, herr, hraw⟩, _⟩ :=
+      c11_valid_is_validated_with_callbacks env hk cfg stj (gen j) t [] hfeeds
+      |>.imp (fun a => a r hfold hrv) id
+    have hrc : r.confidence = x.confidence := by rw [hr]
+    have hceil := healCeiling_nonneg decay j
+    have hmin0 : 0 ≤ ratMin r.confidence (healCeiling decay j) := by
+      unfold ratMin; split
+      · rw [hrc]; exact hc0
+      · exact hceil
+    have hmin1 : ratMin r.confidence (healCeiling decay j) ≤ r.confidence := by unfold ratMin; split <;> grind
+    rw [hfc, hf]
+    refine ⟨hmin0, by grind, by simp [healedFold], ?_, ?_, ?_⟩
+    · intro h1
+      have hr1 : x.confidence = 1 := by grind
+      obtain ⟨hv, hs'⟩ := hone.mp hr1
+      refine ⟨_, rfl, by simpa [healedFold] using hrv, ?_⟩
+      simp only [healedFold]
+      rw [hr]; exact hs'
+    · intro hdeg
+      rw [ho] at hdeg
+      by_cases hj0 : j = 0 <;> simp [hj0] at hdeg
+    · intro _
+      refine ⟨j, t, healedFold decay j r, by omega, hfeeds, rfl, htag, ?_, by simpa using ha, by simpa [healedFold] using hrv,
+        by simpa [healedFold] using herr, by simpa [healedFold] using hraw, s, hs, d, v,
+        by simpa [healedFold] using hstruct, hval, hder, by simpa [healedFold] using hsu⟩
+      rw [ho]
+      by_cases hj0 : j = 0 <;> simp [hj0]
+  · rw [h0] at hres; cases hres
+
+/-- A Chaperone that was handed to the library's healing wrapper stays the validator the caller configured: constructing
+    a `ChaperoneLoop` on it changes nothing, and a healing run moves its counters only — strategy list and callbacks are
+    the caller's, and every later `fold_enhanced` / `fold` on it invokes the same callbacks, makes the same library
+    calls and returns the same report (or raises the same callback exception) as on the instance that was never
+    wrapped; in particular clean JSON is still taken verbatim by STRICT and a valid structure is still derived from the
+    raw text (the theorems above apply to it unchanged). -/
+theorem c11_wrapped_instance_is_the_callers_validator (env envHeal : Env J S C) (i : HInst S C) (decay : Rat)
+    (maxRetries : Nat) (gen : Nat → Text) (raw : Text) (call : List Strategy) :
+    i.wrapInLoop = i ∧
+    (i.wrapInLoop.afterHeal envHeal decay maxRetries gen).cfg = i.cfg ∧
+    (i.wrapInLoop.afterHeal envHeal decay maxRetries gen).hooks = i.hooks ∧
+    (∀ i' : HInst S C, i' = i.wrapInLoop.afterHeal envHeal decay maxRetries gen →
+      (foldXH env i'.hooks i'.cfg i'.stats raw call).hooks = (foldXH env i.hooks i.cfg i.stats raw call).hooks ∧
+      (foldXH env i'.hooks i'.cfg i'.stats raw call).trace = (foldXH env i.hooks i.cfg i.stats raw call).trace ∧
+      (foldXH env i'.hooks i'.cfg i'.stats raw call).res = (foldXH env i.hooks i.cfg i.stats raw call).res ∧
+      (foldH env i'.hooks i'.cfg i'.stats raw call).hooks = (foldH env i.hooks i.cfg i.stats raw call).hooks ∧
+      (foldH env i'.hooks i'.cfg i'.stats raw call).trace = (foldH env i.hooks i.cfg i.stats raw call).trace ∧
+      ((∃ e, (foldH env i'.hooks i'.cfg i'.stats raw call).res = .raise e ∧
+             (foldH env i.hooks i.cfg i.stats raw call).res = .raise e) ∨
+       (∃ p p', (foldH env i'.hooks i'.cfg i'.stats raw call).res = .ok p' ∧
+             (foldH env i.hooks i.cfg i.stats raw call).res = .ok p ∧
+             p'.valid = p.valid ∧ p'.struct = p.struct ∧ p'.raw = p.raw))) := by
+  refine ⟨rfl, rfl, rfl, ?_⟩
+  intro i' hi'
+  subst hi'
+  simp only [HInst.wrapInLoop, HInst.afterHeal]
+  obtain ⟨k1, k2, k3⟩ := foldXH_counters_irrelevant env i.hooks i.cfg
+    (healH envHeal i.hooks i.cfg i.stats decay maxRetries gen).stats i.stats raw call
+  obtain ⟨a1, a2, _, a4⟩ := c11_plain_and_enhanced_agree_with_callbacks env i.hooks i.cfg
+    (healH envHeal i.hooks i.cfg i.stats decay maxRetries gen).stats raw call
+  obtain ⟨b1, b2, _, b4⟩ := c11_plain_and_enhanced_agree_with_callbacks env i.hooks i.cfg i.stats raw call
+  refine ⟨k1, k2, k3, by rw [a1, b1, k1], by rw [a2, b2, k2], ?_⟩
+  rcases a4 with ⟨e, ha, hax⟩ | ⟨p', x', ha, hax, hv', hs', hr', _⟩ <;>
+    rcases b4 with ⟨e2, hb, hbx⟩ | ⟨p, x, hb, hbx, hv, hs, hr, _⟩
+  · rw [k3, hbx] at hax; cases hax
+    exact Or.inl ⟨_, ha, hb⟩
+  · rw [k3, hbx] at hax; cases hax
+  · rw [k3, hbx] at hax; cases hax
+  · rw [k3, hbx] at hax; cases hax
+    exact Or.inr ⟨p, p', ha, hb, by rw [hv', hv], by rw [hs', hs], by rw [hr', hr]⟩
+
+example : (HInst.afterHeal toyEnv (⟨Cfg.new [.repair, .strict], toyHooks, Stats.zero⟩ : HInst Nat Nat) (1 / 10) 2
+      (fun k => if k < 1 then rawBad else rawProse)).stats.total = 2 ∧
+    (HInst.afterHeal toyEnv (⟨Cfg.new [.repair, .strict], toyHooks, Stats.zero⟩ : HInst Nat Nat) (1 / 10) 2
+      (fun k => if k < 1 then rawBad else rawProse)).cfg.strategies = [.repair, .strict] := ⟨rfl, rfl⟩
+
 /-! ## The tables and constants the model uses are the ones in the source (regenerated every run) -/
 
 /-- The extraction table, the repair table, the default strategy order, the members of `FoldingStrategy` and
